@@ -289,6 +289,20 @@ func (s *sim) runOps(what string, txn *part.Txn[uint64], tm map[string]uint64, t
 				s.txnReads(what, txn, tm, ts)
 			}
 		}
+	case mode == 8 && s.rng.IntN(3) == 0: // deep chain: every prefix of a long nested key is itself a key (tree depth 20-70)
+		depth := 20 + s.rng.IntN(50)
+		unit := [][]byte{[]byte("/d"), {0x00}, []byte("ab")}[s.rng.IntN(3)]
+		s.logf("%s chain unit=%x depth=%d", what, unit, depth)
+		var k []byte
+		for i := 0; i < depth && !s.failed; i++ {
+			k = append(k, unit...)
+			s.applyWrite(what, txn, tm, ts, 0, bytes.Clone(k))
+		}
+		// delete a few of the deep keys again (some in this transaction, most are left for later transactions)
+		for i := 0; i < 3 && !s.failed; i++ {
+			d := 1 + s.rng.IntN(depth)
+			s.applyWrite(what, txn, tm, ts, 4, bytes.Repeat(unit, d))
+		}
 	default: // shrink fan-out under a prefix
 		p := s.genKey()
 		if len(p) > 0 {
